@@ -93,6 +93,9 @@ type Interp struct {
 	noMerge   bool
 	sum       *sumState
 	noSum     int
+	digests    map[int][]*Term
+	digestApps []digestApp
+	uuids      []*Term
 	expectPanic bool
 }
 
@@ -2381,4 +2384,12 @@ func (it *Interp) idx64(t *Term, ty types.Type) *Term {
 		return it.ts.SExt(t, 64)
 	}
 	return it.ts.ZExt(t, 64)
+}
+
+func (it *Interp) callStack() string {
+	var names []string
+	for f := it.top; f != nil && len(names) < 12; f = f.caller {
+		names = append(names, f.fn.String())
+	}
+	return strings.Join(names, " <- ")
 }
